@@ -24,24 +24,43 @@ import (
 
 type c05fScenario struct {
 	name    string
-	revoke  string // IK | SK
+	revoke  string // IK | SK (C05) | "" (C04: nothing is revoked, the keys simply age)
 	spec    PolicySpec
-	offsets []int // seconds between consecutive encrypts, the first counted from the revocation
+	offsets []int // seconds between consecutive encrypts, the first counted from the revocation / the warm-up
+	skAge   int   // C04: the system key is this many seconds older than the intermediate key
+}
+
+// c04fScenarios are the C04 timelines: keys age past the lifetime while the reads of the session may fail.
+func c04fScenarios(thorough bool) []c05fScenario {
+	out := []c05fScenario{
+		{name: "expire-both/E+1,R", spec: SpecDefault, offsets: []int{E + 1, R}},
+		{name: "expire-sk-first/E-R,R+1,R", spec: SpecDefault, offsets: []int{E - R - 120, R + 1, R}, skAge: R + 120},
+	}
+	if thorough {
+		out = append(out,
+			c05fScenario{name: "expire-both/E-1,R,R", spec: SpecDefault, offsets: []int{E - 1, R, R}},
+			c05fScenario{name: "expire-both-shared/E+1,R", spec: SpecShared("lru", 2), offsets: []int{E + 1, R}},
+			c05fScenario{name: "expire-both-sessions/E+1,R", spec: SpecSessions("slru", 1), offsets: []int{E + 1, R}},
+			c05fScenario{name: "expire-both-nocache/E+1,R", spec: SpecNoCache, offsets: []int{E + 1, R}},
+			c05fScenario{name: "expire-sk-first-ikonly/E-R,R+1,R", spec: SpecIKOnly, offsets: []int{E - R - 120, R + 1, R}, skAge: R + 120},
+		)
+	}
+	return out
 }
 
 func c05fScenarios(thorough bool) []c05fScenario {
 	out := []c05fScenario{
-		{"sk-revoked/R+1,R,R+1", "SK", SpecDefault, []int{R + 1, R, R + 1}},
-		{"ik-revoked/R+1,R", "IK", SpecDefault, []int{R + 1, R}},
+		{name: "sk-revoked/R+1,R,R+1", revoke: "SK", spec: SpecDefault, offsets: []int{R + 1, R, R + 1}},
+		{name: "ik-revoked/R+1,R", revoke: "IK", spec: SpecDefault, offsets: []int{R + 1, R}},
 	}
 	if thorough {
 		out = append(out,
-			c05fScenario{"sk-revoked/R-1,R,R,R", "SK", SpecDefault, []int{R - 1, R, R, R}},
-			c05fScenario{"sk-revoked-shared/R+1,R,R+1", "SK", SpecShared("lru", 2), []int{R + 1, R, R + 1}},
-			c05fScenario{"sk-revoked-sessions/R+1,R,R+1", "SK", SpecSessions("slru", 1), []int{R + 1, R, R + 1}},
-			c05fScenario{"sk-revoked-ikonly/R+1,R,R+1", "SK", SpecIKOnly, []int{R + 1, R, R + 1}},
-			c05fScenario{"ik-revoked/R-1,R,R", "IK", SpecDefault, []int{R - 1, R, R}},
-			c05fScenario{"ik-revoked-shared/R+1,R", "IK", SpecShared("lru", 2), []int{R + 1, R}},
+			c05fScenario{name: "sk-revoked/R-1,R,R,R", revoke: "SK", spec: SpecDefault, offsets: []int{R - 1, R, R, R}},
+			c05fScenario{name: "sk-revoked-shared/R+1,R,R+1", revoke: "SK", spec: SpecShared("lru", 2), offsets: []int{R + 1, R, R + 1}},
+			c05fScenario{name: "sk-revoked-sessions/R+1,R,R+1", revoke: "SK", spec: SpecSessions("slru", 1), offsets: []int{R + 1, R, R + 1}},
+			c05fScenario{name: "sk-revoked-ikonly/R+1,R,R+1", revoke: "SK", spec: SpecIKOnly, offsets: []int{R + 1, R, R + 1}},
+			c05fScenario{name: "ik-revoked/R-1,R,R", revoke: "IK", spec: SpecDefault, offsets: []int{R - 1, R, R}},
+			c05fScenario{name: "ik-revoked-shared/R+1,R", revoke: "IK", spec: SpecShared("lru", 2), offsets: []int{R + 1, R}},
 		)
 	}
 	return out
@@ -54,16 +73,30 @@ func (sc c05fScenario) body(c *explore.Ctx) {
 	s, _ := f.GetSession("A")
 	ikID := ref.IntermediateKeyID("A", "s", "p", "")
 	skID := ref.SystemKeyID("s", "p", "")
+	if sc.skAge > 0 {
+		// the system key is created first, through another partition
+		sb, _ := f.GetSession("B")
+		if _, err := sb.Encrypt(ctx, []byte("b")); err != nil {
+			panic(fmt.Sprintf("C04f set-up: %v", err))
+		}
+		sb.Close()
+		vclock.Advance(time.Duration(sc.skAge) * time.Second)
+	}
 	warm, err := s.Encrypt(ctx, []byte("warm"))
 	if err != nil {
 		panic(fmt.Sprintf("C05f set-up: %v", err))
 	}
-	if sc.revoke == "IK" {
+	switch sc.revoke {
+	case "IK":
 		w.MS.Revoke(ikID, warm.Key.ParentKeyMeta.Created)
-	} else {
+	case "SK":
 		w.MS.Revoke(skID, w.MS.Latest(skID).Created)
 	}
 	tRev := vclock.Unix()
+	prop := "C05"
+	if sc.revoke == "" {
+		prop = "C04"
+	}
 	vsched.EndQuiet()
 	blocked := false // a replacement key could not be created (insert / wrap made to fail): outside the property
 	for n, off := range sc.offsets {
@@ -71,6 +104,10 @@ func (sc c05fScenario) body(c *explore.Ctx) {
 		vsched.GlobalEvent("tick")
 		w.MS.FaultMode, w.KMS.FaultMode = 1, 1
 		msFrom, kmsFrom := len(w.MS.Calls), len(w.KMS.Calls)
+		rowsBefore := map[string]bool{}
+		for _, r := range w.MS.SortedRows() {
+			rowsBefore[rowKey(r.ID, r.Created)] = true
+		}
 		var rec *ae.DataRowRecord
 		var err error
 		pan := safe(func() { rec, err = s.Encrypt(ctx, []byte(fmt.Sprintf("payload-%d", n))) })
@@ -100,18 +137,18 @@ func (sc c05fScenario) body(c *explore.Ctx) {
 			c.Outcome("faulted")
 		}
 		if pan != "" {
-			c.Failf("C05:panic", "encrypt %d panicked: %s", n, pan)
+			c.Failf(prop+":panic", "encrypt %d panicked: %s", n, pan)
 			return
 		}
 		if err != nil {
 			if faults == 0 {
-				c.Failf("C05:enc-error-without-fault", "encrypt %d at +%ds failed although nothing was made to fail: %v (calls: %s)", n, now-tRev, err, trail.String())
+				c.Failf(prop+":enc-error-without-fault", "encrypt %d at +%ds failed although nothing was made to fail: %v (calls: %s)", n, now-tRev, err, trail.String())
 			}
 			continue
 		}
 		ik := w.MS.Rows[rec.Key.ParentKeyMeta.ID][rec.Key.ParentKeyMeta.Created]
 		if ik == nil {
-			c.Failf("C05:record-under-unstored-ik", "encrypt %d names an IK that is not in the metastore (calls: %s)", n, trail.String())
+			c.Failf(prop+":record-under-unstored-ik", "encrypt %d names an IK that is not in the metastore (calls: %s)", n, trail.String())
 			continue
 		}
 		var sk *struct{ revoked bool; at int64; created int64 }
@@ -119,6 +156,29 @@ func (sc c05fScenario) body(c *explore.Ctx) {
 			if r := w.MS.Rows[ik.Rec.ParentKeyMeta.ID][ik.Rec.ParentKeyMeta.Created]; r != nil {
 				sk = &struct{ revoked bool; at int64; created int64 }{r.Rec.Revoked, r.RevokedAt, r.Created}
 			}
+		}
+		rowsNow := map[string]bool{}
+		for _, r := range w.MS.SortedRows() {
+			rowsNow[rowKey(r.ID, r.Created)] = true
+		}
+		if prop == "C04" {
+			switch {
+			case blocked:
+				c.Outcome("exempt:replacement-blocked")
+			case now > ik.Created+E:
+				c.Failf("C04:expired-ik-used-after-failed-read", "encrypt %d at t=+%ds handed out a record under IK %d of age %d > lifetime %d although the metastore accepts writes; calls of this encrypt: %s", n, now-tRev, ik.Created, now-ik.Created, E, trail.String())
+			case sk != nil && now > sk.created+E+R:
+				c.Failf("C04:ik-of-expired-sk-used-after-failed-read", "encrypt %d at t=+%ds handed out a record under IK %d whose system key %d expired %ds ago (bound: one interval of %ds); calls of this encrypt: %s", n, now-tRev, ik.Created, sk.created, now-sk.created-E, R, trail.String())
+			default:
+				c.Outcome("checked")
+			}
+			// no intermediate key is created under a system key that is expired at that time
+			for _, r := range w.MS.SortedRows() {
+				if strings.HasPrefix(r.ID, "_IK_") && r.StoredAt == now && !rowsBefore[rowKey(r.ID, r.Created)] && r.Rec.ParentKeyMeta != nil && now > r.Rec.ParentKeyMeta.Created+E && !blocked {
+					c.Failf("C04:ik-created-under-expired-sk-after-failed-read", "encrypt %d created IK %d under system key %d which is expired at that time; calls: %s", n, r.Created, r.Rec.ParentKeyMeta.Created, trail.String())
+				}
+			}
+			continue
 		}
 		switch {
 		case blocked:
@@ -138,12 +198,17 @@ func (sc c05fScenario) body(c *explore.Ctx) {
 }
 
 // c05Faults explores the timelines; deviations = injected failures.
-func c05Faults(r *Report) {
-	for _, sc := range c05fScenarios(r.Thorough()) {
+func c05Faults(r *Report) { timelineFaults(r, "C05f/", c05fScenarios(r.Thorough())) }
+
+// c04Faults is the same for the C04 timelines.
+func c04Faults(r *Report) { timelineFaults(r, "C04f/", c04fScenarios(r.Thorough())) }
+
+func timelineFaults(r *Report, prefix string, scs []c05fScenario) {
+	for _, sc := range scs {
 		sc := sc
 		if !r.TimeLeft() {
 			r.Exhaustive = false
-			r.Caps = append(r.Caps, "C05f/"+sc.name+": not started (time budget)")
+			r.Caps = append(r.Caps, prefix+sc.name+": not started (time budget)")
 			continue
 		}
 		dev := 2
@@ -151,7 +216,7 @@ func c05Faults(r *Report) {
 			dev = 3
 		}
 		t0 := time.Now()
-		cfg := explore.Config{Name: "C05f/" + sc.name, Preemptions: 0, Deviations: dev, Deadline: r.Deadline, MaxViolations: 100}
+		cfg := explore.Config{Name: prefix + sc.name, Preemptions: 0, Deviations: dev, Deadline: r.Deadline, MaxViolations: 100}
 		res := explore.Explore(cfg, sc.body)
 		seen := map[string]bool{}
 		var keep []explore.Violation
@@ -170,6 +235,11 @@ func c05Faults(r *Report) {
 func c05fReplayBody(h string) explore.Body {
 	for _, sc := range c05fScenarios(true) {
 		if "C05f/"+sc.name == h {
+			return sc.body
+		}
+	}
+	for _, sc := range c04fScenarios(true) {
+		if "C04f/"+sc.name == h {
 			return sc.body
 		}
 	}
